@@ -8,7 +8,7 @@ uint32_t cx_state, cx_expected, cx_type; uint8_t cx_trid[2], cx_trid_n;
 int main(void)
 {
   world_init(0);
-  uint32_t state = nondet_u32(), expected = nondet_u32(); VF_ASSUME(IS_ESTABLISHED(state) && state != st_logon_received && expected >= 1 && expected < 10000000);
+  uint32_t state = nondet_u32(), expected = nondet_u32(); VF_ASSUME(IS_ESTABLISHED(state) && state != st_logon_received && expected >= 1);
   vf_sess_set_seq(BASE, 9, expected); vf_sess_set_state(BASE, state); vf_sess_set_active(BASE, 1);
   vf_sess_set_flags(BASE, 1, 0, 0, 0, 0);
   uint8_t s[1] = { 'S' }, t[1] = { 'T' }; vf_sess_set_sid(BASE, s, 1, t, 1);
@@ -16,9 +16,9 @@ int main(void)
   m_is_admin = 1; m_has_pd = 0; m_has_st = 1; m_st = 7; m_has_ost = 0;
   m_has_trid = 1; m_trid_n = TRLEN; m_trid[0] = nondet_u8(); m_trid[1] = nondet_u8();
   if (type[0] == '0') m_has_trid = nondet_bool();
-  uint8_t d[7]; for (int i = 0; i < 7; i++) { d[i] = nondet_u8(); VF_ASSUME(d[i] >= '0' && d[i] <= '9'); }
+  uint8_t d[ND]; for (int i = 0; i < ND; i++) { d[i] = nondet_u8(); VF_ASSUME(d[i] >= '0' && d[i] <= '9'); }
   VF_ASSUME(digits_value(d) == expected);
-  uint8_t raw[12]; uint32_t rawn = raw_seq(raw, d);
+  uint8_t raw[16]; uint32_t rawn = raw_seq(raw, d);
   cx_state = state; cx_expected = expected; cx_type = type[0]; cx_trid[0] = m_trid[0]; cx_trid[1] = m_trid[1]; cx_trid_n = TRLEN;
   uint8_t ret = vf_process(SESS, raw, rawn);
   VF_ASSERT(!__vf_exc_pending, "C22: no exception"); __vf_exc_pending = 0;
